@@ -220,11 +220,12 @@ int main(int argc, char **argv) {
   auto genC = rc::gen::exec([]() { COp o; o.k = *rc::gen::weightedElement<int>({{3, C_SETKEY}, {2, C_CLAIM_SET}, {1, C_CLAIM_DEL}, {2, C_LEEWAY}, {2, C_SETCB}, {1, C_CLOCK}, {9, C_VERIFY}, {2, C_ERRCLR}}); o.a = *UNI(0, 1 << 12); o.b = *UNI(0, 1 << 12); return o; });
   auto genB = rc::gen::exec([]() { BOp o; o.k = *rc::gen::weightedElement<int>({{2, B_HSET}, {1, B_HDEL}, {3, B_CSET}, {1, B_CDEL}, {1, B_IAT}, {2, B_OFFSET}, {4, B_SETKEY}, {3, B_SETCB}, {1, B_CLOCK}, {8, B_GEN}, {2, B_ERRCLR}}); o.a = *UNI(0, 1 << 12); o.b = *UNI(0, 1 << 12); o.c = *UNI(0, 4); return o; });
   bool ok = rc::check("C14: failure is always flagged and explained", [&]() {
+    if (v::shrink_exhausted()) return;
     int prov = *UNI(0, 2); int len = *UNI(1, 31); bool builder = *UNI(0, 2) == 1; std::string r; std::vector<BOp> bops; std::vector<COp> cops;
     if (builder) { bops = *rc::gen::container<std::vector<BOp>>(len, genB); r = run_builder_hist(prov, bops); CASE = "{\"part\":\"builder-history\",\"prov\":" + std::to_string(prov) + ",\"ops\":" + bops_json(bops) + ",\"readable\":" + bops_readable(bops) + "}"; }
     else { cops = *rc::gen::container<std::vector<COp>>(len, genC); r = run_checker_hist(prov, cops); CASE = "{\"part\":\"checker-history\",\"prov\":" + std::to_string(prov) + ",\"ops\":" + cops_json(cops) + ",\"trace\":" + jstr(TRACE) + "}"; }
     st.evaluations++; st.nontrivial(fnv(CASE));
-    if (!r.empty()) { std::string sig = "C14:" + r; if (st.is_known(sig)) { st.known_hits[sig]++; return; } lastwhy = r; lastcase = CASE; RC_FAIL(r); }
+    if (!r.empty()) { std::string sig = "C14:" + r; if (st.is_known(sig)) { st.known_hits[sig]++; return; } lastwhy = r; lastcase = CASE; v::fail_seen()++; RC_FAIL(r); }
   });
   if (!ok && !lastwhy.empty()) st.violation("C14:" + lastwhy, "error contract broken in a history: " + TRACE.substr(TRACE.size() > 500 ? TRACE.size() - 500 : 0), lastcase);
   return finish();
